@@ -50,7 +50,7 @@ class BaseTranslateFilter:
     name = "base"
     # Like the translate tag's: names may contain hyphens, and a placeholder can follow
     # an escaped percent sign.
-    re_vars = re.compile(r"(?<!%)(?:%%)*%\(([\w-]+)\)s")
+    re_vars = re.compile(r"(?<!%)(?:%%)*%\(([\w-]+\??)\)s")
     with_context = True
 
     def __init__(
